@@ -8,7 +8,8 @@ RULE = ("exhaustive identifiers proto.<P>.<cat>.<name>, proto.<P>.<cat>.<sub>.<n
         "cat/sub/name over every registered handler key, its dot-components and fresh tokens, 3 protocol strings, "
         "as the last element of error lists of length 1..3 (earlier elements are decoys that map elsewhere); oracle: "
         "reference lookup (full id, id without proto.<P>., final component, category, generic) over the registry "
-        "read from RpcError.__handlers__; where the statement leaves 'category' open (4-part suffixes) every reading "
+        "read from RpcError.__handlers__, which must itself equal the error ids declared by the error classes (read from the source "
+        "with ast); where the statement leaves 'category' open (4-part suffixes) every reading "
         "is accepted. Non-trivial: >=2 lookup stages match different classes. Distinct = distinct error list.")
 
 PROTOS = ["024-PtTALLiN", "alpha", "005-PsBabyM1"]
@@ -18,6 +19,37 @@ def registry():
     import pytezos.rpc.errors  # noqa: F401  registers the handlers
     from pytezos.rpc.node import RpcError
     return RpcError, dict(RpcError.__handlers__)
+
+
+def declared_registry():
+    """{error id: class name} as DECLARED in the source (class X(RpcError, error_id=...)), read with ast: independent of what
+    the registration code put into RpcError.__handlers__ at import time."""
+    import ast
+    import pytezos.rpc.errors as errs
+    import pytezos.rpc.node as node
+    out = {}
+    for mod in (errs, node):
+        tree = ast.parse(open(mod.__file__).read())
+        for n in ast.walk(tree):
+            if isinstance(n, ast.ClassDef):
+                for kw in n.keywords:
+                    if kw.arg == "error_id":
+                        val = ast.literal_eval(kw.value)
+                        for eid in (val if isinstance(val, list) else [val]):
+                            out[eid] = n.name
+    return out
+
+
+def check_registry(case):
+    _, handlers = registry()
+    live = {k: v.__name__ for k, v in handlers.items()}
+    want = declared_registry()
+    if live != want:
+        extra = {k: live[k] for k in live if want.get(k) != live[k]}
+        missing = {k: want[k] for k in want if k not in live}
+        raise Violation("the handler registry differs from the error ids the classes declare: unexpected %s, missing %s" % (
+            extra, missing), case, "registry")
+    return live
 
 
 def _first_match(stages, handlers, generic):
@@ -49,6 +81,8 @@ def acceptable(eid, handlers, generic):
 
 
 def oracle(case):
+    if case.get("mode") == "registry":
+        return check_registry(case)
     RpcError, handlers = registry()
     errors = case["errors"]
     try:
@@ -104,6 +138,7 @@ def run(h):
         items.append({"errors": [last]})
         items.append({"errors": [decoys[i % 3], last]})
         items.append({"errors": [decoys[(i + 1) % 3], decoys[i % 3], last]})
+    h.run_enum([{"mode": "registry"}], lambda c, st_: (oracle(c), st_.case(c, True, "registry"))[1], shards=1)
     h.exhaustive = True
     h.coverage_extra["exhaustive_subdomain"] = "%d identifiers x list lengths 1..3" % len(ids)
     h.coverage_extra["registry"] = {k: v.__name__ for k, v in handlers.items()}
